@@ -145,25 +145,17 @@ def classify(diag):
 
 
 def prepass(ctx, events, seen=None):
-    out = []
-    for e in events:
-        if e.get("ev") == "panic":
-            msg = re.sub(r"\d+", "N", e.get("msg", ""))[:200]
-            what = "C03: panic during search: " + msg
-        elif e.get("ev") == "error":
-            err = re.sub(r"\d+", "N", e.get("err", ""))[:200]
-            what = ("C03: " + KF_BOOLRANGE) if "Expected term with uN, iN, fN or date" in err and "Bool" in err else "C03: search returned an error: " + err
-        else:
-            out.append(vlib.strip_nulls(e))
-            continue
-        with _lock:
-            n = ctx.cov["rejections_by_class"].get(what, 0)
-            ctx.cov["rejections_by_class"][what] = n + 1
-            if n < 2 and (seen is None or what not in seen):
-                ctx.violation(what, [], json.dumps({"q": e.get("q")})[:3000])
-            if seen is not None:
-                seen.append(what)
-    return out
+    """nothing is filtered: an "error" / "panic" event (a search that failed) goes to the judge, which has no action for it"""
+    return [vlib.strip_nulls(e) for e in events]
+
+
+def failure_text(diag):
+    err = re.sub(r"\d+", "N", str(diag.get("err", "")))[:200]
+    if diag.get("ev") == "panic":
+        return "C03: panic during search: " + err
+    if "Expected term with uN, iN, fN or date" in err and "Bool" in err:
+        return "C03: " + KF_BOOLRANGE
+    return "C03: search returned an error: " + err
 
 
 def judge(ctx, path, name):
@@ -222,7 +214,7 @@ def validate(ctx, events, label, seen=None):
         bad = pending[line - 1]
         if bad.get("ev") in ("corpus", "scorpus") or "q" not in diag:
             raise vlib.ToolError(f"QuerySemTrace rejected a non-search event of {path}: {json.dumps(diag)[:300]}")
-        what = classify(diag)
+        what = failure_text(diag) if diag.get("ev") in ("error", "panic") else classify(diag)
         rp = ctx.path(f"{label}.rejected.{rounds}.ndjson")
         vlib.write_ndjson(rp, [{"ev": "reset"}] + corpus + [bad])
         with _lock:
